@@ -225,9 +225,19 @@ impl<R: Read> LineProcessor<R> {
     pub fn count_lines(&mut self) -> Result<usize> {
         let mut count = 0;
         while self.read_next_line()? {
-            if !self.config.skip_empty_lines || !self.line_buffer.trim().is_empty() {
-                count += 1;
+            // Same rule as process_lines: a line is skipped when it is empty
+            // (after trimming only if trim_whitespace is set)
+            if self.config.skip_empty_lines {
+                let line = if self.config.trim_whitespace {
+                    self.line_buffer.trim()
+                } else {
+                    self.line_buffer.as_str()
+                };
+                if line.is_empty() {
+                    continue;
+                }
             }
+            count += 1;
         }
         Ok(count)
     }
